@@ -749,7 +749,16 @@ def goconv_tie(ctx, tools, exe, rng, n):
 
 
 def run(ctx):
+    import time
+    t0 = time.time()
+    timing = {}
+
+    def lap(name):
+        nonlocal t0
+        timing[name] = round(time.time() - t0, 1)
+        t0 = time.time()
     tools = vcheck.build_harness(["goextract", "ovrdrive"])
+    lap("go_build")
     ok, failed, log = vcheck.proof_step(
         ctx, "Props/C14.v", MODEL_FILES,
         gen_writer=lambda: gen.regenerate(tools, ["overrides"]), extra_obligation_files=["Overrides/GenOblig.v"])
@@ -770,7 +779,9 @@ def run(ctx):
     broken = None
     if not ok:
         broken = "Coq development for C14 no longer checks (an obligation regenerated from /repo or a theorem fails): %s" % (failed or log[-800:])
+    lap("coq")
     exe = ocamlbuild.build("overrides")
+    lap("extract_ocaml")
     rng = ctx.rng.fork("c14")
     nconv, badconv = goconv_tie(ctx, tools, exe, rng.fork("conv"), ctx.scale(400, 20000))
     # programs
@@ -786,15 +797,20 @@ def run(ctx):
         cases.append(Case(len(cases), pr))
     jobs = [{"id": c.id, "src": c.prog["src"], "data": {"consts": [[k, str(b)] for k, b in c.prog["vmap"]],
                                                          "paths": ["po", "backends", "glsl", "msl"]}} for c in cases]
+    lap("generate")
     res = nagarun.parallel_batches(tools["ovrdrive"], "resolve", jobs, per_job_timeout=20.0, chunk=64)
+    lap("naga")
     for c in cases:
         c.go = res.get(c.id)
     live = [c for c in cases if c.go and "lowered" in c.go]
     outs = vcheck.run_model(exe, [model_job(c) for c in live])
     for c, o in zip(live, outs):
         c.model = o
+    lap("model")
     ck = Checker(ctx, tools, exe)
     ck.run_all(cases)
+    lap("compare_and_blame")
+    ctx.cov["timing_s"] = timing
     st = ck.stats
     st["goconv_values"] = nconv
     st["operator_type_classes_exercised"] = sorted(ck.opcov)
